@@ -407,6 +407,32 @@ pub fn run() -> Report {
             }
         }
     }
+    // the same kind of chain with ONE block per file (300 files) under a descriptor limit far below the number of files:
+    // a layout is only "the same chain stored differently" if the run does not need one descriptor per file
+    {
+        let nblk: usize = 300;
+        let chain = uniform_chain(nblk);
+        let mut world = refmodel::world::World::new(btc);
+        for (h, b) in chain.blocks.iter().enumerate() {
+            world.add_block(h as u64, h as u64, b);
+        }
+        let wk = Worker::new(&root, 951);
+        let mut spec = RunSpec::new("bitcoin", "csvdump");
+        spec.rlimit_nofile = 40;
+        match wk.world_run(&world, &spec) {
+            Err(m) => rep.machinery(m),
+            Ok(r) => {
+                rep.states += 1;
+                rep.transitions += 1;
+                rep.count("one-block-per-file-300-under-nofile-40", 1);
+                rep.nontrivial.insert(h8(b"300-files-nofile-40"));
+                let bad = check_csvdump(&r, btc, &in_range(&chain.mblocks(), 0, nblk as u64 - 1), 0, nblk as u64 - 1);
+                if let Some((sig, detail)) = bad.into_iter().next() {
+                    rep.disagree(&format!("one-block-per-file:{}", sig), format!("300 one-block files, RLIMIT_NOFILE=40: {}", detail.chars().take(400).collect::<String>()), json!({"kind": "e1-described", "layout": "300 blocks, one per blk file, RLIMIT_NOFILE=40"}));
+                }
+            }
+        }
+    }
     if rep.outcomes.len() > 1 && rep.disagreements.is_empty() {
         rep.machinery("outputs differ between layouts although each equals the model".into());
     }
